@@ -37,6 +37,10 @@ pub struct FbCase {
     /// the first of them is dropped while its fallback is pending
     #[serde(default)]
     pub group_mode: u8,
+    /// event listeners registered on the layer: bit 0 = one right after builder(), bit 1 = one
+    /// just before build(); 0 = none (listeners observe, they must not change any outcome)
+    #[serde(default)]
+    pub listeners: u8,
 }
 
 fn default_backup_code() -> u32 {
@@ -56,8 +60,9 @@ fn case_strategy(_tier: Tier) -> BoxedStrategy<FbCase> {
         any::<bool>(),
         prop::collection::vec((0u8..3, 0u8..3), 0..=3),
         prop_oneof![2 => Just(0u8), 1 => Just(1u8), 1 => Just(2u8)],
+        prop_oneof![2 => Just(0u8), 1 => 1u8..=3],
     )
-        .prop_map(|(req_id, req_key, req_tag, value_serial, code_a, code_b, lat, backup_code, handle_first, more_calls, group_mode)| FbCase {
+        .prop_map(|(req_id, req_key, req_tag, value_serial, code_a, code_b, lat, backup_code, handle_first, more_calls, group_mode, listeners)| FbCase {
             req_id,
             req_key,
             req_tag,
@@ -69,6 +74,7 @@ fn case_strategy(_tier: Tier) -> BoxedStrategy<FbCase> {
             handle_first,
             more_calls,
             group_mode,
+            listeners,
         })
         .boxed()
 }
@@ -164,6 +170,13 @@ async fn run_grid(case: &FbCase) -> (Vec<String>, usize, Vec<serde_json::Value>)
                 let asked = Arc::new(AtomicU64::new(0));
                 let mut errors_seen = 0u64;
                 let mut b = FallbackLayer::<Req, Resp, SErr>::builder().name("vcheck");
+                let events_seen = Arc::new(AtomicU64::new(0));
+                if case.listeners & 1 != 0 {
+                    let ev = events_seen.clone();
+                    b = b.on_event(move |_e: &tower_resilience_fallback::FallbackEvent| {
+                        ev.fetch_add(1, Ordering::SeqCst);
+                    });
+                }
                 if case.handle_first {
                     b = match pred {
                     0 => b,
@@ -243,6 +256,12 @@ async fn run_grid(case: &FbCase) -> (Vec<String>, usize, Vec<serde_json::Value>)
                         b.handle(move |_e: &SErr| asked.fetch_add(1, Ordering::SeqCst) % 2 == 0)
                     }
                     };
+                }
+                if case.listeners & 2 != 0 {
+                    let ev = events_seen.clone();
+                    b = b.on_event(move |_e: &tower_resilience_fallback::FallbackEvent| {
+                        ev.fetch_add(1, Ordering::SeqCst);
+                    });
                 }
                 let layer = b.build();
                 // an inner service whose readiness check fails with an error the predicate
@@ -537,6 +556,9 @@ impl Property for C17 {
         }
         r.nontrivial = true;
         r.class("full_grid_105_cells");
+        if case.listeners != 0 {
+            r.class("event_listeners_registered");
+        }
         if !case.more_calls.is_empty() {
             r.class("several_calls_per_cell");
         }
